@@ -4,6 +4,7 @@
 use mc_core::model::pattern as mpat;
 use mc_core::model::pkgpath as mpath;
 use mc_core::model::scanindex::{self as msi, Record, SCALAR_KEYS};
+use mc_core::par::par_items;
 use mc_core::seqs;
 use mc_core::{bytes_from_json, bytes_json, guard, Run, Tally, Violation};
 use pkgsrc::ScanIndex;
@@ -365,6 +366,66 @@ fn main() {
             }
         }
         run.merge(t);
+    }
+    // separator sweep: each ASCII white-space character that can occur inside a line (SP TAB VT
+    // FF CR), singly and in pairs, between list items, around scalar values and around keys
+    {
+        let mut t = Tally::new();
+        let ws = [' ', '\t', '\u{b}', '\u{c}', '\r'];
+        let mut seps: Vec<String> = ws.iter().map(|c| c.to_string()).collect();
+        for a in ws {
+            for b in ws {
+                seps.push(format!("{}{}", a, b));
+            }
+        }
+        run.bound(format!("separator sweep: {} separators (SP TAB VT FF CR, singly and in pairs) x 9 line shapes", seps.len()));
+        for sp in &seps {
+            for line in [
+                format!("MULTI_VERSION=A=1{}B=2", sp), format!("SCAN_DEPENDS=a.mk{}b.mk{}c.mk", sp, sp), format!("ALL_DEPENDS=x-[0-9]*:../../a/b{}y>=1:../../c/d", sp),
+                format!("ALL_DEPENDS={}x-[0-9]*:../../a/b{}", sp, sp), format!("MAINTAINER={}m x{}", sp, sp), format!("PKG_LOCATION={}cat/pkg{}", sp, sp),
+                format!("PKGNAME={}d-4{}", sp, sp), format!("{}MAINTAINER=x", sp), format!("ALL_DEPENDS=x-[0-9]*:../../a/b{}broken", sp),
+            ] {
+                let text = format!("PKGNAME=a-1\nCATEGORIES=c\n{}\nRESTRICTED=r\nPKGNAME=c-3\nMAINTAINER=m\n", line);
+                t.states += 1;
+                check_text(&mut t, &text);
+            }
+        }
+        run.merge(t);
+    }
+    // very long lines: list fields and a scalar of 2^k + d bytes (k = 16..=23) must arrive whole
+    {
+        let ks: Vec<u32> = (16..=run.pick(23, 24) as u32).collect();
+        run.bound(format!("very long lines: SCAN_DEPENDS / ALL_DEPENDS / MAINTAINER lines of 2^k + {{-1,0,1}} bytes for k = 16..={}", ks.last().unwrap()));
+        par_items(&run, "C16 long lines", &ks, |_, k, t| {
+            for d in [-1i64, 0, 1] {
+                let target = ((1i64 << k) + d) as usize;
+                // SCAN_DEPENDS: items of 11 bytes incl. separator, the last one padded to hit the length
+                let mut sd = String::from("SCAN_DEPENDS=");
+                let mut i = 0u64;
+                while sd.len() + 24 < target {
+                    sd.push_str(&format!("f{:08}.mk ", i));
+                    i += 1;
+                }
+                while sd.len() < target {
+                    sd.push('z');
+                }
+                let mut ad = String::from("ALL_DEPENDS=");
+                let mut j = 0u64;
+                while ad.len() + 48 < target {
+                    ad.push_str(&format!("d{:07}-[0-9]*:../../c/d{:07} ", j, j));
+                    j += 1;
+                }
+                let tail = format!("t>=1:../../c/{}", "t".repeat(target.saturating_sub(ad.len() + 13)));
+                ad.push_str(&tail);
+                let mt = format!("MAINTAINER={}", "m".repeat(target - 11));
+                for line in [&sd, &ad, &mt] {
+                    let text = format!("PKGNAME=a-1\n{}\nCATEGORIES=c\nPKGNAME=c-3\nMAINTAINER=m\n", line);
+                    t.states += 1;
+                    t.transitions += 1;
+                    check_text(t, &text);
+                }
+            }
+        });
     }
     run.finish();
 }
